@@ -285,6 +285,69 @@ func runRepSendTimeoutScenario(c *Ctx, fl repFlavor) {
 	e.Finish()
 }
 
+// directed (all four flavours): two connections use the same request id (the ids of different REQ sockets are
+// independent counters, collisions are ordinary); the first asker's request is taken, its connection closes, then the
+// second asker's request — byte-identical routing words — arrives.  The answer to the first request has nowhere to go:
+// it must not be handed to the second asker, whose own request must still be delivered and answered on its own pipe.
+func runRepSameIDOtherPipe(c *Ctx, fl repFlavor) {
+	e := NewExec(c, "m.rep", fl.mk(), fl.name)
+	w := be32(0x80000001)
+	e.AddPipe(611)
+	e.AddPipe(612)
+	body := func(tag byte) []byte { return append(append([]byte{}, w...), 'Q', tag) }
+	e.Inject(611, body(1))
+	e.Recv(0)
+	var hdrA []byte
+	for _, ev := range splitEvents(lastObs(e)) {
+		if ev.kind == "ret" && ev.hdr != nil {
+			hdrA = ev.hdr
+		}
+	}
+	e.RmPipe(611)
+	e.Inject(612, body(2))
+	// the answer to the first request
+	if fl.cooked {
+		e.Send(0, nil, []byte{'A', 1})
+	} else {
+		e.Send(0, hdrA, []byte{'A', 1})
+	}
+	for _, ev := range splitEvents(lastObs(e)) {
+		if ev.kind == "tx" && ev.pipe == 612 {
+			c.Violate(fmt.Sprintf("%s: the answer to a request that had arrived on connection 611 (now closed) was handed to connection 612, whose own request carries the same request id %x", fl.name, w), e.Replay())
+		}
+	}
+	// the second asker's own request is still there to be taken and answered
+	e.Recv(0)
+	got := false
+	var hdrB []byte
+	for _, ev := range splitEvents(lastObs(e)) {
+		if ev.kind == "ret" && len(ev.msg) == 2 && ev.msg[0] == 'Q' && ev.msg[1] == 2 {
+			got = true
+			hdrB = ev.hdr
+		}
+	}
+	if !got && !e.broken {
+		c.Violate(fmt.Sprintf("%s: the request of connection 612 was never handed to the application after a request with the same id from a closed connection had been answered (observed: %s)", fl.name, lastObs(e)), e.Replay())
+	}
+	if got {
+		if fl.cooked {
+			e.Send(0, nil, []byte{'A', 2})
+		} else {
+			e.Send(0, hdrB, []byte{'A', 2})
+		}
+		ok := false
+		for _, ev := range splitEvents(lastObs(e)) {
+			if ev.kind == "tx" && ev.pipe == 612 && len(ev.msg) == 2 && ev.msg[1] == 2 {
+				ok = true
+			}
+		}
+		if !ok && !e.broken {
+			c.Violate(fmt.Sprintf("%s: the answer to connection 612's request did not go to connection 612 (observed: %s)", fl.name, lastObs(e)), e.Replay())
+		}
+	}
+	e.Finish()
+}
+
 func runC05(c *Ctx) {
 	c.Rep.Rule = "random histories on real rep / respondent / xrep / xrespondent protocol instances: requests with 1-3 (occasionally 9) routing words of random content from 1-3 virtual pipes, Recv/Send on 1-3 contexts, slow and failing reply pipes, the requesting pipe closing at arbitrary moments; " +
 		"every operation is a trace line checked against the Lean machine and every transmitted reply against the request it answers; class = (operation, shape of the observable outcome)"
@@ -301,6 +364,9 @@ func runC05(c *Ctx) {
 		if fl.cooked {
 			runRepSendTimeoutScenario(c, fl)
 		}
+	}
+	for _, fl := range repFlavors {
+		runRepSameIDOtherPipe(c, fl)
 	}
 	runRawRetryAfterTimeout(c)
 	runRawReplyToGoneClient(c)
